@@ -197,6 +197,11 @@ def paths(e, env=None, conds=frozenset(), effects=()):
         v = canon(e['ch'][0], env) if e.get('ch') else '()'
         yield conds, 'return ' + v, effects
         return
+    if k in ('Assign', 'AssignOp'):
+        op = '=' if k == 'Assign' else e['op']
+        yield conds, '()', tuple(effects) + ('%s %s %s' % (canon(e['ch'][0], env), op,
+                                                          canon(e['ch'][1], env)),)
+        return
     if e.get('ty') == '!':
         yield conds, 'PANIC', effects
         return
